@@ -1153,9 +1153,15 @@ impl Interp {
                 RefName::Valid(n11) => match self.child_by_name(od.node, &n11) {
                     None => {
                         if n11[0] == b'.' {
-                            // "." / ".." in a directory that has no such entry
-                            info.state_class = Some("missing");
-                            X::Err(&["NotFound"])
+                            if self.nodes[od.node].parent.is_some() {
+                                // every sub-directory holds "." and "..": they are directories
+                                info.state_class = Some("directory");
+                                X::Err(&[])
+                            } else {
+                                // the root directory has no such entries
+                                info.state_class = Some("missing");
+                                X::Err(&["NotFound"])
+                            }
                         } else if create_mode {
                             info.state_class = Some("missing");
                             X::OkCreate(n11)
